@@ -25,6 +25,7 @@ OWNERS: list[tuple[str, set[str]]] = [
     ("lookup", {"C02"}),
     ("scope-", {"C02"}),
     ("current-parent", {"C02"}),
+    ("announce-race-duplicate", {"C18", "C04"}),
     ("announce-", {"C18"}),
     ("history-deadlock", {"C02", "C03", "C04", "C18"}),
     ("lifecycle-", {"C02", "C03", "C04", "C18"}),
